@@ -547,6 +547,7 @@ enum ROut {
 }
 
 fn run_once(plan: &ZPlan, art: &Art, energy: u64) -> ROut {
+    concordium_wasm::machine::verif_hooks::reset(0);
     let ctx: ReceiveContext<Vec<u8>> = ReceiveContext {
         metadata:        ChainMetadata {
             slot_time: Timestamp::from_timestamp_millis(12345),
